@@ -14,7 +14,7 @@ HEADLINE = ['pairs', 'instants', 'overrun_prone_pairs', 'fresh_runs', 'continued
 
 
 def floors(tier):
-    return {'pairs': 1000, 'overrun_prone_pairs': 200, 'continued_runs': 200, 'stopped_runs': 50, 'unit_change_continuations': 60, 'reset_reruns': 100, 'durations_converted_in_place': 200,
+    return {'pairs': 1000, 'overrun_prone_pairs': 200, 'continued_runs': 200, 'stopped_runs': 50, 'unit_change_continuations': 60, 'reset_reruns': 100, 'continuations_after_a_stopped_run': 100, 'durations_converted_in_place': 200,
             'set:dt_T_units': 16, 'set:nontrivial': 300}
 
 
@@ -116,6 +116,15 @@ def make_case(rng, i):
         sched += [{'op': 'reset'}, {'op': 'reapply'}] + ([{'op': 'newsolver'}] if rng.random() < 0.5 else []) + \
                  [{'op': 'run', 'dt': dt2, 'T': GEN.Q('TimeInterval', float(Decimal(repr(dt2['v'])) * n2), dt2['u'])}]
         info['n2'] = n2
+    elif kind == 6:
+        info['kind'] = 'stopped-then-continued'
+        spec['stop'] = {'sensor': 'enc', 'elem': 1, 'op': 'ge', 'thr': GEN.Q('AngularPosition', 0.5 * (0.8 * w0 * 0.05) * (rng.uniform(0.2, 0.8) * n * dt_si) ** 2 / dt_si, 'rad')}
+        n2 = rng.randint(2, 40)
+        u2 = rng.choice(SI.units('TimeInterval'))
+        dt2 = GEN.reexpress(dt, u2) if rng.random() < 0.5 else dict(dt)
+        sched[0]['stop'] = True
+        sched.append({'op': 'run', 'dt': dt2, 'T': GEN.Q('TimeInterval', float(Decimal(repr(dt2['v'])) * n2) if dt2['u'] == dt['u'] else GEN.qsi(dt2) * n2 / SI.FACT['Time'][dt2['u']], dt2['u']), 'stop': False})
+        info['n2'] = n2
     elif kind == 4:
         info['kind'] = 'stopped'
         # stop when the gear has turned far enough: somewhere inside the run
@@ -198,6 +207,8 @@ def one(ctx, i):
         ctx.count('durations_converted_in_place')
     if info.get('unit_change'):
         ctx.count('unit_change_continuations')
+    if info['kind'] == 'stopped-then-continued':
+        ctx.count('continuations_after_a_stopped_run')
     if info['kind'] == 'reset-rerun':
         ctx.count('reset_reruns')
         if b.captures:
